@@ -349,11 +349,39 @@ def r04e(ctx, rep, rule="R04e"):
     rep.floor(rule, "return linkage constructions that are stored", k, 2)
 
 
+def r04f(ctx, rep, rule="R04f"):
+    facts = ctx["facts"]
+    rep.rule(rule, "the machine executes the instruction the compiler emitted: run_one's dispatch switches on the discriminant of "
+             "the opcode exactly as returned by read_opcode — no re-mapping in between. A TCALL rewritten to CALL at dispatch "
+             "time (for some class of procedures) silently turns tail calls into stack-growing calls.")
+    f = need(rep, rule, facts, RUN_ONE)
+    if f is None:
+        return
+    OP = "marwood::vm::opcode::OpCode"
+    sws = [sw for sw in disc_switches(facts, f, OP) if len(sw["arms"]) >= 8]
+    if not sws:
+        rep.anchor_lost(rule, "opcode dispatch in run_one")
+        return
+    for i, sw in enumerate(sws):
+        blk = f.blocks[sw["bb"]]
+        t = blk["term"]
+        o = f.origin(t["op"])
+        src = None
+        if o[0] == "rv" and o[1]["rv"]["k"] == "disc":
+            src = f.origin({"copy": o[1]["rv"]["place"]})
+        ok = src is not None and src[0] == "call" and (callee(src[1]) or "").endswith("::read_opcode")
+        (rep.ok if ok else rep.fail)(rule, "%s|run_one|dispatch#%d" % (rule, i + 1),
+                                     "run_one dispatches on the opcode returned by read_opcode" if ok else
+                                     "run_one dispatches on a value that is not the opcode read_opcode returned (it was re-mapped or "
+                                     "merged from several definitions): the executed instruction can differ from the emitted one", [f.span])
+
+
 def run(ctx, rep):
     r04a(ctx, rep)
     r04b(ctx, rep)
     r04c(ctx, rep)
     r04e(ctx, rep)
+    r04f(ctx, rep)
     from . import prelude
     prelude.r04d(ctx, rep)
     rep.not_decided += ["stack-pointer arithmetic being off by a constant inside a bp-relative handler",
